@@ -75,6 +75,32 @@ def control_wf(n: str) -> str:
     return ''.join(TRANS.get(c, c) for c in hostile_wf(n))
 
 
+# a well-formed canary without blanks or quotes: text that is turned into an identifier (blanks become dashes) stays well-formed
+HOSTILE_NS = '<b>zq{n}<script>zq{n}</script>&lt;i&gt;</b>'
+
+
+def hostile_ns(n: str) -> str:
+    return HOSTILE_NS.replace('{n}', n)
+
+
+def control_ns(n: str) -> str:
+    return ''.join(TRANS.get(c, c) for c in hostile_ns(n))
+
+
+_NS_LEN = len(hostile_ns('99')) + 2
+
+# compatibility characters that a Unicode normalisation (NFKC/NFKD) folds into the HTML metacharacters: they are ordinary text
+HOSTILE_FW = '\uff1cscript\uff1ezq{n}\uff1c/script\uff1e\uff06lt;\uff02\ufe64b\ufe65'
+
+
+def hostile_fw(n: str) -> str:
+    return HOSTILE_FW.replace('{n}', n)
+
+
+def control_fw(n: str) -> str:
+    return hostile_fw(n).replace('\uff1c', '=').replace('\uff1e', '?').replace('\uff06', '%').replace('\uff02', '!').replace('\ufe64', '=').replace('\ufe65', '?')
+
+
 def control(n: str, nq: bool = False) -> str:
     return ''.join((TRANS_NQ if nq else TRANS).get(c, c) for c in hostile(n, nq))
 
@@ -85,31 +111,37 @@ def _lit(s: str) -> str:
 
 
 FIELDS = {
-    'epytext': dict(param='@param a: pa @@CAN17@@', typ='@type a: C{{@@CNQ18@@}}', badparam='@param @@CAN19@@: unknown param',
+    'epytext': dict(sect='\u00e9 @@CNS99@@\n' + '=' * _NS_LEN + '\n\nSection text.\n\n@@CNS98@@ \u043f\n' + '-' * _NS_LEN + '\n\nSubsection text.', param='@param a: pa @@CAN17@@', typ='@type a: C{{@@CNQ18@@}}', badparam='@param @@CAN19@@: unknown param',
                     rais='@raise @@CAN20@@: exc @@CAN35@@', ret='@return: r @@CAN21@@', see='@see: @@CAN22@@', unk='@unknownfield @@CAN23@@: x',
                     ivar='@ivar iv: d @@CAN26@@', cvar='@cvar @@CAN27@@: bad name', rtype='@rtype: @@CNQ32@@', inline='C{{@@CAN36@@}} B{{@@CAN37@@}} U{{label<http://example.com/@@CAQ70@@>}} U{{http://example.com/@@CAQ71@@}} L{{@@CAW74@@ <canpkg.mod.f>}} L{{@@CAW75@@ <nosuchtarget>}} U{{@@CAW76@@ <http://example.com/>}}'),
-    'restructuredtext': dict(param=':param a: pa @@CAN17@@', typ=':type a: ``@@CNQ18@@``', badparam=':param @@CAN19@@: unknown param',
+    'restructuredtext': dict(sect='\u00e9 @@CNS99@@\n' + '=' * (_NS_LEN + 6) + '\n\nSection text.\n\n@@CNS98@@ \u043f\n' + '-' * (_NS_LEN + 6) + '\n\nSubsection text.', param=':param a: pa @@CAN17@@', typ=':type a: ``@@CNQ18@@``', badparam=':param @@CAN19@@: unknown param',
                              rais=':raise @@CAN20@@: exc @@CAN35@@', ret=':return: r @@CAN21@@', see=':see: @@CAN22@@', unk=':unknownfield @@CAN23@@: x',
                              ivar=':ivar iv: d @@CAN26@@', cvar=':cvar @@CAN27@@: bad name', rtype=':rtype: @@CNQ32@@', inline='``@@CAN36@@`` **@@CAN37@@** `label <http://example.com/@@CAQ70@@>`_ http://example.com/@@CAQ71@@ `label <http://example.com/@@CAQ77@@>` `label <https://example.com/x@@CAQ78@@ y>` `<ftp://example.com/@@CAQ79@@>`\n\n.. image:: http://example.com/x.png\n   :alt: alt @@CAQ72@@\n\n.. code-block:: bash\n\n   echo @@CAW90@@\n\n.. code:: json\n\n   {{"k": "@@CAW92@@"}}\n\n.. code:: python\n\n   x = "@@CAW93@@"\n\nTarget_ text.\n\n.. _Target: http://example.com/@@CAQ73@@'),
-    'google': dict(param='Args:\n        a: pa @@CAN17@@\n        @@CAN19@@ (@@CNQ18@@): unknown param', typ='', badparam='',
+    'google': dict(sect='', param='Args:\n        a: pa @@CAN17@@\n        @@CAN19@@ (@@CNQ18@@): unknown param', typ='', badparam='',
                    rais='Raises:\n        @@CAN20@@: exc @@CAN35@@', ret='Returns:\n        r @@CAN21@@', see='See Also:\n        @@CAN22@@', unk='Note:\n        @@CAN23@@',
                    ivar='Attributes:\n        iv: d @@CAN26@@\n        @@CAN27@@: bad name', cvar='', rtype='', inline='``@@CAN36@@`` **@@CAN37@@** `label <http://example.com/@@CAQ70@@>`_ http://example.com/@@CAQ71@@ `label <http://example.com/@@CAQ77@@>` `label <https://example.com/x@@CAQ78@@ y>` `<ftp://example.com/@@CAQ79@@>`\n\n.. image:: http://example.com/x.png\n   :alt: alt @@CAQ72@@\n\n.. code-block:: bash\n\n   echo @@CAW90@@\n\n.. code:: json\n\n   {{"k": "@@CAW92@@"}}\n\n.. code:: python\n\n   x = "@@CAW93@@"'),
-    'numpy': dict(param='Parameters\n    ----------\n    a : @@CNQ18@@\n        pa @@CAN17@@\n    @@CAN19@@\n        unknown param', typ='', badparam='',
+    'numpy': dict(sect='', param='Parameters\n    ----------\n    a : @@CNQ18@@\n        pa @@CAN17@@\n    @@CAN19@@\n        unknown param', typ='', badparam='',
                   rais='Raises\n    ------\n    @@CAN20@@\n        exc @@CAN35@@', ret='Returns\n    -------\n    @@CNQ32@@\n        r @@CAN21@@', see='See Also\n    --------\n    @@CAN22@@', unk='Notes\n    -----\n    @@CAN23@@',
                   ivar='Attributes\n    ----------\n    iv\n        d @@CAN26@@\n    @@CAN27@@\n        bad name', cvar='', rtype='', inline='``@@CAN36@@`` **@@CAN37@@** `label <http://example.com/@@CAQ70@@>`_ http://example.com/@@CAQ71@@ `label <http://example.com/@@CAQ77@@>` `label <https://example.com/x@@CAQ78@@ y>` `<ftp://example.com/@@CAQ79@@>`\n\n.. image:: http://example.com/x.png\n   :alt: alt @@CAQ72@@\n\n.. code-block:: bash\n\n   echo @@CAW90@@\n\n.. code:: json\n\n   {{"k": "@@CAW92@@"}}\n\n.. code:: python\n\n   x = "@@CAW93@@"'),
-    'plaintext': dict(param='@param a: pa @@CAN17@@', typ='', badparam='', rais='@@CAN20@@ @@CAN35@@', ret='@@CAN21@@', see='@@CAN22@@', unk='@@CAN23@@', ivar='@@CAN26@@',
+    'plaintext': dict(sect='@@CNS99@@', param='@param a: pa @@CAN17@@', typ='', badparam='', rais='@@CAN20@@ @@CAN35@@', ret='@@CAN21@@', see='@@CAN22@@', unk='@@CAN23@@', ivar='@@CAN26@@',
                       cvar='@@CAN27@@', rtype='@@CNQ32@@', inline='@@CAN36@@ @@CAN37@@'),
 }
 
 DIRECTED = '''"""Module doc @@CAN1@@ and {inline}.
 
-Second paragraph @@CAN38@@.
+Second paragraph @@CAN38@@ and @@CFW60@@.
+
+{sect}
 """
 __all__ = ['f', 'C', '@@CAN3@@']
 from twisted.python.deprecate import deprecated
 from incremental import Version
 V = '@@CAN4@@'
 """attr doc @@CAN5@@"""
+FW = ['@@CFW61@@', b'x']
+"""attr doc @@CFW62@@"""
+def fw(a='@@CFW63@@', b: '@@CFW64@@' = 1):
+    """Function doc @@CFW65@@."""
 NB1 = '\xa0@@CAW80@@'
 NB2 = ['\xa0', '@@CAW81@@', '@@CAN82@@\xa0']
 WF = '@@CAW83@@'
@@ -326,6 +358,8 @@ def _render_pair(res: core.Res, label: str, sources: Dict[str, Tuple[bool, str]]
                 text = re.sub(r'@@CNQ(\d+)@@', lambda m: _lit(fn(m.group(1), True)), text)
                 text = re.sub(r'@@CAQ(\d+)@@', lambda m: _lit((hostile_aq if variant == 'hostile' else control_aq)(m.group(1))), text)
                 text = re.sub(r'@@CAW(\d+)@@', lambda m: _lit((hostile_wf if variant == 'hostile' else control_wf)(m.group(1))), text)
+                text = re.sub(r'@@CFW(\d+)@@', lambda m: _lit((hostile_fw if variant == 'hostile' else control_fw)(m.group(1))), text)
+                text = re.sub(r'@@CNS(\d+)@@', lambda m: _lit((hostile_ns if variant == 'hostile' else control_ns)(m.group(1))), text)
                 parts = name.split('.')
                 if is_pkg:
                     d = src.joinpath(*parts)
